@@ -11,6 +11,7 @@
 (*   C13  Operand     an operand's projection (container contents included) is unchanged     *)
 (*        CopyEq      a copy / deepcopy / CreateCopy() / pickle equals its source            *)
 (*   C09  Same        the recorded result equals the recorded reference (Python's own float operator on the raw numbers)  *)
+(*   C12  CatConsistent  a registered category has a registered default unit among its valid units and builds a valid Scalar in it  *)
 (*   C20  SimpleStr   a simple quantity's strings are its registered category, type, unit    *)
 EXTENDS Integers, Sequences, TLC, Json, IOUtils
 Trace == ndJsonDeserialize(IOEnv.TRACE_FILE)
@@ -30,6 +31,7 @@ Judge(ev) ==
     [] ev.op = "Operand"   -> ev.pre = ev.post
     [] ev.op = "CopyEq"    -> ev.eq /\ ~ev.ne /\ ev.desc1 = ev.desc2
     [] ev.op = "Same"      -> ev.a = ev.b
+    [] ev.op = "CatConsistent" -> ev.du_registered /\ ev.du_in_valid /\ ev.scalar_built /\ ev.scalar_valid /\ ev.scalar_unit_is_du /\ ev.check_default
     [] ev.op = "SimpleStr" -> ev.unit = ev.u /\ ev.category = ev.c /\ ev.qtype = ev.qt /\ ev.repr_shows /\ ev.str_shows
     [] OTHER -> FALSE
 Next == /\ l < Len(Trace)
